@@ -84,6 +84,16 @@ fn payload(n: usize, pat: usize, per: usize, nl: usize) -> Vec<u8> {
                     }
                     3 => ((i * 37 + 13) % 256) as u8,
                     4 => alpha(97, i % per.max(1), 7),
+                    // bytes that are not UTF-8 (0xFF) and NUL bytes
+                    6 => {
+                        if i % 17 == 5 {
+                            0xFF
+                        } else if i % 23 == 11 {
+                            0
+                        } else {
+                            alpha(97, i, 7)
+                        }
+                    }
                     // blanks inside and directly before the trailing newlines
                     5 => {
                         if n == i + nl + 1 || i % 5 == 2 {
@@ -181,6 +191,13 @@ impl OpWorld {
         }
     }
 
+    fn ofd(&self, fd: Fd) -> Option<Rc<RefCell<yash_env::system::r#virtual::OpenFileDescription>>> {
+        let pid = self.system.getpid();
+        let state = self.system.state.borrow();
+        let body = state.processes.get(&pid)?.fds().get(&fd)?;
+        Some(Rc::clone(&body.open_file_description))
+    }
+
     fn slot(&self, k: usize) -> Option<(Fd, bool, bool, bool)> {
         self.slots.get(k).copied().flatten()
     }
@@ -196,16 +213,18 @@ impl OpWorld {
         let w: Vec<&str> = op.split_whitespace().collect();
         let (before, readers_before, _) = self.view();
         let res = match w.as_slice() {
-            ["or"] | ["ow"] | ["orw"] => {
+            ["or"] | ["ow"] | ["orw"] | ["owa"] => {
                 let (access, r, wr) = match w[0] {
                     "or" => (OfdAccess::ReadOnly, true, false),
-                    "ow" => (OfdAccess::WriteOnly, false, true),
+                    "ow" | "owa" => (OfdAccess::WriteOnly, false, true),
                     _ => (OfdAccess::ReadWrite, true, true),
                 };
-                match self
-                    .system
-                    .open(c"/p", access, OpenFlag::NonBlock.into(), Mode::empty())
-                    .now_or_never()
+                let flags = if w[0] == "owa" {
+                    OpenFlag::NonBlock | OpenFlag::Append
+                } else {
+                    OpenFlag::NonBlock.into()
+                };
+                match self.system.open(c"/p", access, flags, Mode::empty()).now_or_never()
                 {
                     Some(Ok(fd)) => {
                         self.slots.push(Some((fd, r, wr, true)));
@@ -314,6 +333,78 @@ impl OpWorld {
                             None => "pend".into(),
                         }
                     }
+                }
+            }
+            ["dw", k, n] => {
+                // `OpenFileDescription::write`: one `poll_write`, `Pending` reported as EAGAIN
+                let k: usize = k.parse().ok()?;
+                let n: usize = n.parse().ok()?;
+                match self.slot(k) {
+                    None => "nofd".into(),
+                    Some((fd, ..)) => {
+                        let buf = op_data(i, n);
+                        let ofd = self.ofd(fd)?;
+                        let r = ofd.borrow_mut().write(&buf);
+                        let (after, ..) = self.view();
+                        let written = after.len().saturating_sub(before.len());
+                        self.accepted.extend_from_slice(&buf[..written.min(n)]);
+                        match r {
+                            Ok(m) => {
+                                if m != written {
+                                    self.flag(i, "count-differs-from-buffered");
+                                }
+                                if n <= PIPE_BUF && m != n {
+                                    self.flag(i, "atomic-write-split");
+                                }
+                                format!("ok {m}")
+                            }
+                            Err(e) => {
+                                if written != 0 {
+                                    self.flag(i, "error-after-transfer");
+                                }
+                                errno_name(e)
+                            }
+                        }
+                    }
+                }
+            }
+            ["dr", k, n] => {
+                let k: usize = k.parse().ok()?;
+                let n: usize = n.parse().ok()?;
+                match self.slot(k) {
+                    None => "nofd".into(),
+                    Some((fd, ..)) => {
+                        let mut buf = vec![0u8; n];
+                        let ofd = self.ofd(fd)?;
+                        let r = ofd.borrow_mut().read(&mut buf);
+                        match r {
+                            Ok(m) => {
+                                let m = m.min(n);
+                                self.delivered.extend_from_slice(&buf[..m]);
+                                format!("ok {}:{}", m, hash_bytes(&buf[..m]))
+                            }
+                            Err(e) => errno_name(e),
+                        }
+                    }
+                }
+            }
+            ["selbad", which] => {
+                // `select` on a descriptor that is not open
+                let mut rs = FdSet::new();
+                let mut ws = FdSet::new();
+                if *which == "r" {
+                    rs.insert(Fd(99));
+                } else {
+                    ws.insert(Fd(99));
+                }
+                match self
+                    .system
+                    .select(&mut rs, &mut ws, Some(Duration::ZERO), None)
+                    .now_or_never()
+                {
+                    Some(Ok(_)) => "sel ok".into(),
+                    Some(Err(e)) => format!("sel {}", errno_name(e)),
+                    None => "sel pend".into(),
                 }
             }
             ["sel"] => {
@@ -452,7 +543,22 @@ fn gen_ops(rng: &mut Rng, len: usize) -> String {
                 _ => rng.below(2 * PIPE_SIZE + 10),
             }
         };
-        let op = match rng.below(100) {
+        let op = match rng.below(108) {
+            100..=102 => {
+                let k = pick_slot(rng, true, &world);
+                let r = room as i64;
+                let b = PIPE_BUF as i64;
+                let n = size(rng, &[r - 1, r, r + 1, r - b, b, b + 1]);
+                format!("dw {k} {n}")
+            }
+            103..=105 => {
+                let k = pick_slot(rng, false, &world);
+                let l = content.len() as i64;
+                let n = size(rng, &[l - 1, l, l + 1, 1, 0]);
+                format!("dr {k} {n}")
+            }
+            106 => "selbad r".into(),
+            107 => "selbad w".into(),
             0..=39 => {
                 let k = pick_slot(rng, true, &world);
                 let r = room as i64;
@@ -468,7 +574,8 @@ fn gen_ops(rng: &mut Rng, len: usize) -> String {
                 format!("r {k} {n}")
             }
             75..=79 => "or".into(),
-            80..=84 => "ow".into(),
+            80..=83 => "ow".into(),
+            84 => "owa".into(),
             85 => "orw".into(),
             86..=90 => format!("c {}", rng.below(nslots)),
             91..=94 => format!("nb {} {}", rng.below(nslots), rng.below(2)),
@@ -520,9 +627,23 @@ fn run_xfer(ws: &[&str]) -> (String, String) {
     let wk = kv_n(ws, "wk");
     let rk = kv_n(ws, "rk");
     let seed = kv_n(ws, "seed") as u64;
+    // `stop=K`: the reader takes exactly K bytes and closes its end (the writer then meets EPIPE)
+    let stop: Option<usize> = kv(ws, "stop").and_then(|v| v.parse().ok());
     let mut rng = Rng::new(seed ^ 0xC14_0001);
     let system = Rc::new(Concurrent::new(VirtualSystem::new()));
     let (rfd, wfd) = system.pipe().unwrap();
+    if kv(ws, "mode") == Some("rderr") {
+        // `read_all` on the writing end: the error path of the loop
+        let mut buf = vec![];
+        let r = system.read_all_to(wfd, &mut buf).now_or_never();
+        let obs = match r {
+            Some(Err(e)) => format!("rderr={} len={}", errno_name(e), buf.len()),
+            Some(Ok(())) => format!("rderr=none len={}", buf.len()),
+            None => "rderr=pend".into(),
+        };
+        let oracle = if obs == "rderr=EBADF len=0" { "ok" } else { "FAIL:read-error-path" };
+        return (obs, oracle.into());
+    }
 
     let wres: Rc<Cell<Option<&'static str>>> = Rc::new(Cell::new(None));
     let rres: Rc<Cell<Option<&'static str>>> = Rc::new(Cell::new(None));
@@ -549,12 +670,36 @@ fn run_xfer(ws: &[&str]) -> (String, String) {
             wres.set(Some(out));
         })
     };
+    let data_len = data.len();
     let reader: Pin<Box<dyn Future<Output = ()>>> = {
         let system = Rc::clone(&system);
         let wres2 = Rc::clone(&rres);
         let received = Rc::clone(&received);
         Box::pin(async move {
-            if rk == 0 {
+            if let Some(limit) = stop {
+                let mut buf = vec![0u8; if rk == 0 { 1024 } else { rk }];
+                let mut out = if limit < data_len { "stopped" } else { "done" };
+                loop {
+                    let total = received.borrow().len();
+                    if total >= limit {
+                        break;
+                    }
+                    yields(ry).await;
+                    let want = buf.len().min(limit - total);
+                    match system.read(rfd, &mut buf[..want]).await {
+                        Ok(0) => {
+                            out = "done";
+                            break;
+                        }
+                        Ok(m) => received.borrow_mut().extend_from_slice(&buf[..m]),
+                        Err(_) => {
+                            out = "error";
+                            break;
+                        }
+                    }
+                }
+                wres2.set(Some(out));
+            } else if rk == 0 {
                 yields(ry).await;
                 let mut buf = vec![];
                 let r = system.read_all_to(rfd, &mut buf).await;
@@ -632,15 +777,21 @@ fn run_xfer(ws: &[&str]) -> (String, String) {
         wres.get().unwrap_or("?"),
         rres.get().unwrap_or("?")
     );
-    let oracle = if got == data {
-        "ok".to_string()
-    } else {
+    let expect: &[u8] = match stop {
+        Some(k) => &data[..k.min(data.len())],
+        None => &data,
+    };
+    let oracle = if got != expect {
         let at = got
             .iter()
-            .zip(data.iter())
+            .zip(expect.iter())
             .position(|(a, b)| a != b)
-            .unwrap_or(got.len().min(data.len()));
+            .unwrap_or(got.len().min(expect.len()));
         format!("FAIL:data-differs-at-{at}")
+    } else if stop.is_some_and(|k| k + PIPE_SIZE < data.len()) && wres.get() != Some("failed") {
+        "FAIL:writer-did-not-see-EPIPE".to_string()
+    } else {
+        "ok".to_string()
     };
     (obs, oracle)
 }
@@ -764,11 +915,18 @@ fn build_script(
     data: &[u8],
     per: usize,
     seed: u64,
+    st: Option<usize>,
 ) -> Option<String> {
-    let text = std::str::from_utf8(data).ok()?;
-    if text.contains('\'') || text.contains('\0') {
-        return None;
-    }
+    let text = match src {
+        "var" | "dbl" | "here" => {
+            let text = std::str::from_utf8(data).ok()?;
+            if text.contains('\'') || text.contains('\0') {
+                return None;
+            }
+            text
+        }
+        _ => "",
+    };
     let mut x = match src {
         "file" => "{ cat </p\n}".to_string(),
         "gen" => format!("{{ gen {}\n}}", [0, 0, 1, 100, 511, 512, 513, 1500][(seed % 8) as usize]),
@@ -824,8 +982,14 @@ fn build_script(
             s = lcg(s);
         }
     }
+    let x = match st {
+        Some(n) => format!("{x}\nst {n}"),
+        None => x,
+    };
     Some(match kind {
         "var" => format!("x=$( {x} )"),
+        // the backquote form (the flow text contains neither backquotes nor backslashes)
+        "bq" => format!("x=`{x}`"),
         "file" => format!("{{ {x}\n}} >/out"),
         _ => x,
     })
@@ -844,10 +1008,14 @@ fn run_sh(ws: &[&str]) -> (String, String) {
     let src = kv(ws, "src").unwrap_or("file");
     let shape = kv(ws, "shape").unwrap_or("-");
     let kind = kv(ws, "kind").unwrap_or("out");
-    let var = kind == "var";
+    let var = kind == "var" || kind == "bq";
     let pro = kv_n(ws, "pro");
     let seed = kv_n(ws, "seed") as u64;
-    let Some(script) = build_script(src, shape, kind, &data, per, seed) else {
+    let st: Option<usize> = kv(ws, "st").and_then(|v| v.parse().ok());
+    if st.is_some() && !var {
+        return ("bad-case".into(), "-".into());
+    }
+    let Some(script) = build_script(src, shape, kind, &data, per, seed, st) else {
         return ("bad-case".into(), "-".into());
     };
     let Some(prologue) = PROLOGUES.get(pro) else {
@@ -859,14 +1027,15 @@ fn run_sh(ws: &[&str]) -> (String, String) {
     if matches!(src, "var" | "dbl" | "here") {
         want.push(b'\n');
     }
+    let lossy = |v: Vec<u8>| -> Vec<u8> { String::from_utf8_lossy(&v).into_owned().into_bytes() };
     for ch in shape.chars() {
         if ch == 's' || ch == 'h' {
-            want = trim_nl(want);
+            want = trim_nl(lossy(want));
             want.push(b'\n');
         }
     }
     if var {
-        want = trim_nl(want);
+        want = trim_nl(lossy(want));
     }
 
     PAYLOAD.with(|p| *p.borrow_mut() = data.clone());
@@ -900,7 +1069,16 @@ fn run_sh(ws: &[&str]) -> (String, String) {
         value.flatten().unwrap_or_default()
     };
     let mut obs = show_flow(&got);
-    if !out.stderr.is_empty() || out.exit_status != 0 {
+    if let Some(n) = st {
+        // exit status of the command substitution = status of the assignment = status of the script
+        obs = format!("{obs} st={}", out.exit_status);
+        if !out.stderr.is_empty() {
+            obs = format!("ERR(stderr={}) {obs}", out.stderr.len());
+        }
+        if out.exit_status != n as i32 {
+            return (obs, format!("FAIL:exit-status(got {} want {n})", out.exit_status));
+        }
+    } else if !out.stderr.is_empty() || out.exit_status != 0 {
         obs = format!("ERR(status={},stderr={}) {}", out.exit_status, out.stderr.len(), obs);
     }
     let oracle = if got == want {
@@ -1207,6 +1385,88 @@ fn gen_hd(rng: &mut Rng, n: usize) -> String {
     format!("hd n={n} cls={cls} ll={ll} q={q} dash={dash} exp={exp} rd={rd} k={k} via={via} multi={multi} vn={vn}")
 }
 
+
+// ------------------------------------------------------------------------------------------
+// (ii-e) a lowered descriptor limit: pipe / temporary-file creation failures (EMFILE paths)
+
+/// `cat3` : copies standard input to descriptor 3 (opened by `exec 3>/out` before the limit is lowered,
+/// so that the consumer needs no redirection of its own).
+fn cat3_main(env: &mut VEnv, _args: Vec<Field>) -> BuiltinFuture<'_> {
+    Box::pin(async move {
+        let mut buffer = [0u8; 1024];
+        loop {
+            match env.system.read(Fd::STDIN, &mut buffer).await {
+                Ok(0) => return ExitStatus::SUCCESS.into(),
+                Ok(n) => {
+                    if env.system.write_all(Fd(3), &buffer[..n]).await.is_err() {
+                        return ExitStatus::FAILURE.into();
+                    }
+                }
+                Err(_) => return ExitStatus::FAILURE.into(),
+            }
+        }
+    })
+}
+
+fn run_lim(ws: &[&str]) -> (String, String) {
+    let n = kv_n(ws, "n");
+    let data = payload(n, kv_n(ws, "pat"), 0, kv_n(ws, "nl"));
+    let form = kv(ws, "form").unwrap_or("subst");
+    let pro = kv_n(ws, "pro");
+    let limit = kv_n(ws, "lim");
+    let Some(prologue) = PROLOGUES.get(pro) else {
+        return ("bad-case".into(), "-".into());
+    };
+    let Ok(text) = std::str::from_utf8(&data) else {
+        return ("bad-case".into(), "-".into());
+    };
+    let trimmed = trim_nl(data.clone());
+    let mut with_nl = data.clone();
+    with_nl.push(b'\n');
+    let (body, var, want) = match form {
+        "subst" => ("x=$(gen)".to_string(), true, trimmed.clone()),
+        "nest" => ("x=$(echo \"$(gen)\")".to_string(), true, trimmed.clone()),
+        "pipe2" => ("gen | cat3".to_string(), false, data.clone()),
+        "pipe3" => ("gen | cat | cat3".to_string(), false, data.clone()),
+        "pipe4" => ("gen | cat | cat | cat3".to_string(), false, data.clone()),
+        "here" => (format!("cat3 <<'EOF_C14'\n{text}\nEOF_C14"), false, with_nl.clone()),
+        _ => return ("bad-case".into(), "-".into()),
+    };
+    let script = format!("exec 3>/out\n{prologue}ulimit -n {limit}\n{body}\n");
+    PAYLOAD.with(|p| *p.borrow_mut() = data.clone());
+    let mut config = Config::new(&script);
+    config.max_rounds = 400_000;
+    let (out, value) = shell::run_with(
+        config,
+        move |env, _| {
+            env.builtins.insert("gen", Builtin::new(Type::Mandatory, gen_main));
+            env.builtins.insert("cat3", Builtin::new(Type::Mandatory, cat3_main));
+        },
+        move |env, state| {
+            if var {
+                env.variables.get_scalar("x").map(|s| s.as_bytes().to_vec())
+            } else {
+                shell::read_file(state, "/out")
+            }
+        },
+    );
+    if out.stuck {
+        return ("TIMEOUT".into(), "FAIL:deadlock".into());
+    }
+    let got: Vec<u8> = value.flatten().unwrap_or_default();
+    let obs = format!("st={} {}", out.exit_status, show_flow(&got));
+    // the property statement, directly: either the data arrives complete or the failure is reported
+    // (non-zero status) and nothing wrong is delivered
+    let oracle = if out.exit_status == 0 {
+        if got == want { "ok".to_string() } else { format!("FAIL:data(got {} want {})", got.len(), want.len()) }
+    } else if got.is_empty() || want.starts_with(&got) {
+        "ok".to_string()
+    } else {
+        "FAIL:wrong-data-after-failure".to_string()
+    };
+    (obs, oracle)
+}
+
 // ------------------------------------------------------------------------------------------
 // case generation
 
@@ -1247,11 +1507,31 @@ fn gen_xfer(rng: &mut Rng, n: usize) -> String {
     )
 }
 
+/// a reader that stops after K bytes: either the writer cannot finish (EPIPE) or K covers everything
+fn gen_xfer_stop(rng: &mut Rng) -> String {
+    let k = *rng.pick(&[0, 1, 5, PIPE_BUF - 1, PIPE_BUF, PIPE_SIZE, PIPE_SIZE + 1, 2000]);
+    let n = if rng.chance(3, 4) {
+        k + PIPE_SIZE + 1 + rng.below(2 * PIPE_SIZE)
+    } else {
+        rng.below(k + 1)
+    };
+    let wk = *rng.pick(&[0, 0, 100, PIPE_BUF, PIPE_BUF + 1, 700, PIPE_SIZE + 1]);
+    let rk = *rng.pick(&[0, 7, PIPE_BUF, PIPE_SIZE + 1]);
+    format!(
+        "xfer n={n} pat=3 per=0 nl=0 wk={wk} rk={rk} stop={k} seed={}",
+        rng.below(1_000_000)
+    )
+}
+
 fn gen_sh(rng: &mut Rng, n: usize) -> String {
     let srcs = ["file", "gen", "var", "here", "file", "gen"];
     let src = *rng.pick(&srcs);
-    let pat = [0, 1, 2, 5, 1, 5][rng.below(6)];
-    let nl = [0, 0, 1, 2, 5][rng.below(5)].min(n);
+    let mut pat = [0, 1, 2, 5, 1, 5, 6][rng.below(7)];
+    if pat == 6 && !(src == "gen" || src == "file") {
+        pat = 1;
+    }
+    // 0-5 trailing newlines, sometimes more than PIPE_BUF / PIPE_SIZE of them
+    let nl = [0, 0, 1, 2, 5, 3, PIPE_BUF + 88, PIPE_SIZE + 476][rng.below(8)].min(n);
     // 1–4 pipeline stages, command substitutions, here-documents, groups
     let shapes = [
         "c", "cc", "ccc", "cccc", "y", "yc", "cyc", "yyyy", "-", "s", "ss", "cs", "sc", "csc", "gc", "cgs", "h", "hc",
@@ -1261,12 +1541,23 @@ fn gen_sh(rng: &mut Rng, n: usize) -> String {
     // descriptor state of the shell when the flow starts: mostly all open
     let pro = if rng.chance(1, 2) { 0 } else { 1 + rng.below(4) };
     let kind = if pro == 2 || pro == 3 {
-        *rng.pick(&["var", "file"]) // standard output is closed
+        *rng.pick(&["var", "file", "bq"]) // standard output is closed
     } else {
-        *rng.pick(&["var", "out", "file", "var"])
+        *rng.pick(&["var", "out", "file", "var", "bq"])
+    };
+    // the backquote form cannot carry the nested quoting of `s`/`h` shapes or here-document sources
+    let kind = if kind == "bq" && (shape.contains('s') || shape.contains('h') || src == "here") {
+        "var"
+    } else {
+        kind
+    };
+    let st = if (kind == "var" || kind == "bq") && rng.chance(1, 3) {
+        format!(" st={}", *rng.pick(&[0, 1, 7, 42, 127, 255]))
+    } else {
+        String::new()
     };
     format!(
-        "sh n={n} pat={pat} per=0 nl={nl} src={src} shape={shape} kind={kind} pro={pro} seed={}",
+        "sh n={n} pat={pat} per=0 nl={nl} src={src} shape={shape} kind={kind} pro={pro} seed={}{st}",
         rng.below(1_000_000)
     )
 }
@@ -1291,6 +1582,7 @@ fn run_case(case: &str) -> (String, String) {
         Some(&"sh") => run_sh(&ws[1..]),
         Some(&"fd") => run_fd(&ws[1..]),
         Some(&"hd") => run_hd(&ws[1..]),
+        Some(&"lim") => run_lim(&ws[1..]),
         _ => run_ops(case),
     }
 }
@@ -1351,6 +1643,12 @@ fn main() {
         run(&case, false);
     }
 
+    for _ in 0..(if thorough { 4_000 } else { 150 }) {
+        let case = gen_xfer_stop(&mut rng);
+        run(&case, false);
+    }
+    run("xfer mode=rderr", false);
+
     // (ii-c) descriptor choreography: every prologue x every form x sizes
     let forms = ["subst", "nest", "pipe2", "pipe3", "pipe4", "substpipe", "pipesubst"];
     let fd_sizes: Vec<usize> = if thorough {
@@ -1364,6 +1662,17 @@ fn main() {
                 let pat = [0, 1, 5][rng.below(3)];
                 let nl = rng.below(3).min(n);
                 let case = format!("fd pro={pro} form={form} n={n} pat={pat} nl={nl}");
+                run(&case, false);
+            }
+        }
+    }
+
+    // (ii-e) lowered descriptor limit: every limit 0..12 x prologue x form
+    for lim in 0..=12usize {
+        for pro in 0..5 {
+            for form in ["subst", "nest", "pipe2", "pipe3", "pipe4", "here"] {
+                let n = if thorough { *rng.pick(&[0, 100, 1500, 3000]) } else { *rng.pick(&[100, 1500]) };
+                let case = format!("lim lim={lim} pro={pro} form={form} n={n} pat=1 nl={}", rng.below(3).min(n));
                 run(&case, false);
             }
         }
